@@ -197,6 +197,7 @@ class Report:
         self.prop, self.tier, self.level = prop, tier, level
         self.t0 = time.time()
         self.violations = []     # (signature, description, replay object)
+        self._sigs = set()
         self.known_hits = {}
         self.drift = []
         self.cov = {}
@@ -210,10 +211,11 @@ class Report:
                 self.known_hits.setdefault(k["signature"], [k, 0])
                 self.known_hits[k["signature"]][1] += 1
                 return
-        if len(self.violations) < 50:
+        if len(self.violations) < 50 or signature not in self._sigs:
             self.violations.append((signature, what, replay))
         else:
             self.violations.append((signature, "", None))
+        self._sigs.add(signature)
 
     def note_drift(self, what):
         if len(self.drift) < 20:
